@@ -224,6 +224,41 @@ theorem notice_forms_recognised (f : NoticeForm) : isNoticeLine f.line = true :=
 example : isNoticeLine "dying /var/log/portage/cat:pkg-1:20260922.log\n".toList = true ∧
     isNoticeLine "dying_not a notice\n".toList = false := by decide
 
+/-- **batch_reads_own_replies** — `_consume_async_expects` with `n` expectations outstanding takes exactly the `n`
+replies to those requests off the pipe — whether they are the expected texts or not (`preload_eclass failed`) — and
+leaves the pipe at the reply of the next request; its result is positive exactly when every reply is the expected
+text.  (In particular a negative reply in the middle of a batch does not leave the later replies unread.) -/
+theorem batch_reads_own_replies (expected replies rest : List Line)
+    (hlen : replies.length = expected.length) (hn : ∀ l ∈ replies, isNoticeLine l = false) :
+    consumeBatch expected (replies ++ rest) = .result (replies.map rstripNl == expected) rest := by
+  unfold consumeBatch
+  rw [← hlen, readLines_own replies rest hn]
+
+example : consumeBatch ["preload_eclass succeeded".toList, "preload_eclass succeeded".toList, "yep!".toList]
+    ["preload_eclass succeeded\n".toList, "preload_eclass failed\n".toList, "yep!\n".toList, "yep!\n".toList]
+    = .result false ["yep!\n".toList] := by decide
+
+/-- a death notice inside the batch interrupts it, an empty pipe blocks (the daemon still owes replies) -/
+example : consumeBatch ["a".toList, "b".toList] ["a\n".toList, "dying /log\n".toList, "x\n".toList]
+    = .interrupted ["x\n".toList] ∧ consumeBatch ["a".toList, "b".toList] ["a\n".toList] = .blocked := by decide
+
+/-- **bashrc_items_answered** — after `request_bashrcs` the daemon answers every item Python sends: either one `next`
+per item (for a sourced file whatever the exit status of `source` — a bashrc ending in a false test is fine —, for an
+evaluated text when it evaluates), or it dies, and then its death notice is what Python's `expect("next")` reads.
+Python is never left waiting for an acknowledgement that will not come. -/
+theorem bashrc_items_answered (items : List BashrcItem) :
+    ((sourceBashrcs items).length = items.length ∧ ∀ l ∈ sourceBashrcs items, l = .next) ∨
+      BashrcLine.death ∈ sourceBashrcs items :=
+  sourceBashrcs_answered items
+
+/-- sourced files: one `next` each, for all exit statuses -/
+theorem bashrc_paths_acknowledged (sts : List Nat) :
+    sourceBashrcs (sts.map .path) = sts.map fun _ => .next :=
+  sourceBashrcs_paths sts
+
+example : sourceBashrcs [.path 0, .path 1, .path 3, .transfer 0] = [.next, .next, .next, .next] ∧
+    sourceBashrcs [.path 1, .transfer 2, .path 0] = [.next, .death] := by decide
+
 /-! ## the programs of the real API are instances of the quantified client programs -/
 
 theorem wf_replicate_preload (n : Nat) (tail : List POp) (h : wf .main tail = true) :
